@@ -116,7 +116,9 @@ def post_chunk(old, oldkw, result, exc, after, afterkw):
     if snap(subs) != snap(events):
         v.append(("chunk-subevents-do-not-concatenate-to-input", f"in={len(events)} subs={len(subs)} key={key} "
                                                                  f"vals={[canon(e.data[key]) for e in events][:10]}"))
-    contiguous = all(iv(a)[1] == iv(b)[0] for a, b in zip(events, events[1:]))
+    # (only for sequences that run forward in time: the function's pulsetime test looks at end instants, and "contiguous"
+    # means nothing for an event that ends before it starts)
+    contiguous = all(iv(a)[1] == iv(b)[0] for a, b in zip(events, events[1:])) and all(iv(e)[1] >= iv(e)[0] for e in events)
     if contiguous and not v:
         for a, b in zip(result, result[1:]):
             if canon(a.data[key]) == canon(b.data[key]):
@@ -257,6 +259,8 @@ def _events(rng, n, keys_pools, base, unit, contiguous):
             rng.shuffle(items)
             data = dict(items)
         dur = rng.choice([0, 1, 1, 2, 5, 60]) * unit + rng.choice([0, 0, 0, 1, 999])
+        if not contiguous and rng.random() < 0.04:
+            dur = -rng.choice([1, 1000, unit, 3 * unit])      # a negative duration (legal for an Event; clock adjustments produce them)
         ts = base + pos
         if contiguous:
             dur -= dur % 1000
